@@ -276,19 +276,29 @@ static void anchor(SoPlex& o, Model& M)
    lp.resize(m, n);
    lp.sense = s;
    lp.offset = off;
+   // with a rational LP present the exact values are the state (the real LP is only their image)
+   bool rat = o.intParam(SoPlex::SYNCMODE) != SoPlex::SYNCMODE_ONLYREAL && o.numRowsRational() == m && o.numColsRational() == n;
    for(int j = 0; j < n; j++)
    {
-      lp.lo[j] = qd(o.lowerReal(j));
-      lp.up[j] = qd(o.upperReal(j));
-      lp.obj[j] = qd(o.objReal(j));
+      lp.lo[j] = rat ? qr(o.lowerRational(j)) : qd(o.lowerReal(j));
+      lp.up[j] = rat ? qr(o.upperRational(j)) : qd(o.upperReal(j));
+      lp.obj[j] = rat ? qr(o.objRational(j)) : qd(o.objReal(j));
    }
    for(int i = 0; i < m; i++)
    {
-      lp.lhs[i] = qd(o.lhsReal(i));
-      lp.rhs[i] = qd(o.rhsReal(i));
-      DSVectorReal r;
-      o.getRowVectorReal(i, r);
-      for(int k = 0; k < r.size(); k++) lp.A[i][r.index(k)] = qd(r.value(k));
+      lp.lhs[i] = rat ? qr(o.lhsRational(i)) : qd(o.lhsReal(i));
+      lp.rhs[i] = rat ? qr(o.rhsRational(i)) : qd(o.rhsReal(i));
+      if(rat)
+      {
+         const SVectorRational& r = o.rowVectorRational(i);
+         for(int k = 0; k < r.size(); k++) lp.A[i][r.index(k)] = qr(r.value(k));
+      }
+      else
+      {
+         DSVectorReal r;
+         o.getRowVectorReal(i, r);
+         for(int k = 0; k < r.size(); k++) lp.A[i][r.index(k)] = qd(r.value(k));
+      }
    }
 }
 
@@ -1527,17 +1537,9 @@ bool Runner::stepQuery(const Rec& r)
          if(t == "getPrimalReal") co->getPrimal(probe);
          else if(t == "getDualReal") co->getDual(probe);
          else co->getRedCost(probe);
-         if(probe.dim() > need)
-         {
-            ev().count("stored_solution_longer_than_dimension");
-            if(known(K_OVERSIZED))
-            {
-               ev().count(std::string("excluded_known.") + K_OVERSIZED);
-               return true;
-            }
-            // not called: the wrapper would write probe.dim() doubles into a buffer of dim doubles
-            return !bad(t, "stored solution vector has more entries than the LP dimension; the call writes past a buffer of the documented size");
-         }
+         // (since fix 6777602 the pointer getters copy exactly the LP dimension; the call below runs with canaries behind the
+         // buffer and under ASan, so a wrapper that copies the longer stored vector is caught there)
+         if(probe.dim() > need) ev().count("stored_solution_longer_than_dimension");
       }
       Arr<double> a(dim, SENT), b(dim, SENT);
       bool ok = false;
@@ -2076,7 +2078,7 @@ bool Runner::stepFiles(const Rec& r)
       Arr<char> name(std::vector<char>(f.c_str(), f.c_str() + f.size() + 1));
       int a = -1;
       bool b = false;
-      if(!both("readInstanceFile", [&] { a = SoPlex_readInstanceFile(h, name.get()); }, [&] { b = tw->readFile(f.c_str()); })) return true;
+      if(!both("readInstanceFile", [&] { a = SoPlex_readInstanceFile(h, name.get()); }, [&] { try { b = tw->readFile(f.c_str()); } catch(const std::exception&) { b = false; } })) return true;
       ev().count(std::string("readlp.") + (kind == 0 ? "valid" : kind == 1 ? "missing" : "malformed") + (co->intParam(SoPlex::READMODE) == SoPlex::READMODE_REAL ? ".real" : ".rational"));
       if(a != (int) b) return !bad(t, "return value differs from readFile()");
       if((a != 0) != (kind == 0)) return !bad(t, "return value does not tell whether the file could be read");
@@ -2120,7 +2122,7 @@ bool Runner::stepFiles(const Rec& r)
       Arr<char> name(std::vector<char>(f.c_str(), f.c_str() + f.size() + 1));
       int a = -1;
       bool b = false;
-      if(!both("readBasisFile", [&] { a = SoPlex_readBasisFile(h, name.get()); }, [&] { b = tw->readBasisFile(f.c_str()); })) return true;
+      if(!both("readBasisFile", [&] { a = SoPlex_readBasisFile(h, name.get()); }, [&] { try { b = tw->readBasisFile(f.c_str()); } catch(const std::exception&) { b = false; } })) return true;
       ev().count("readbas.variant" + std::to_string(var) + (a ? ".ok" : ".refused"));
       if(a != (int) b) return !bad(t, "return value differs from readBasisFile()");
       if((a != 0) != (var <= 2)) return !bad(t, "return value does not tell whether the basis could be read");
@@ -2177,7 +2179,7 @@ bool Runner::stepFiles(const Rec& r)
       Arr<char> name(std::vector<char>(f.c_str(), f.c_str() + f.size() + 1));
       int a = -1;
       bool b = false;
-      if(!both("readSettingsFile", [&] { a = SoPlex_readSettingsFile(h, name.get()); }, [&] { b = tw->loadSettingsFile(f.c_str()); })) return true;
+      if(!both("readSettingsFile", [&] { a = SoPlex_readSettingsFile(h, name.get()); }, [&] { try { b = tw->loadSettingsFile(f.c_str()); } catch(const std::exception&) { b = false; } })) return true;
       ev().count("readset.lines", (long)(wi.size() + wb.size() + wr.size()));
       if(a != (int) b) return !bad(t, "return value differs from loadSettingsFile()");
       if((a != 0) == missing) return !bad(t, "return value does not tell whether the settings file could be read");
